@@ -89,7 +89,12 @@ pub fn tokenize_inline_content(content: &str) -> Result<Vec<Node>, CompilerError
         // Divert or tunnel: -> target  or  -> target ->
         if ch == '-' && content[index..].starts_with("->") {
             if !text.is_empty() {
-                nodes.push(Node::Text(std::mem::take(&mut text)));
+                // Like inklecate: whatever whitespace is typed before the arrow (none, or
+                // several blanks), the text in front of a divert ends in exactly one space.
+                let mut before = std::mem::take(&mut text);
+                before.truncate(before.trim_end_matches([' ', '\t']).len());
+                before.push(' ');
+                nodes.push(Node::Text(before));
             }
             let divert_str = content[index..].trim();
             let mut divert_nodes = parse_divert_line(divert_str)?;
